@@ -183,7 +183,7 @@ theorem ex_size : ∀ ts, writeTables exEnvF exFileFont = .ok ts → Header.file
     decide +kernel
   intro ts h; rw [h] at this; exact this
 
-theorem C01_file_example_in_domain : InDomainFile exEnvF exFileFont where
+theorem C01_file_example_in_domain : InDomainFile exLayoutDec exEnvF exFileFont where
   glyphs := ex_glyphs
   count := ex_count
   widthsLen := ex_widthsLen
@@ -202,15 +202,18 @@ theorem C01_file_example_in_domain : InDomainFile exEnvF exFileFont where
   cmap := ex_cmap
   names := ex_names
   namesLen := ex_namesLen
+  gdef := by intro b h; cases h
+  gsub := by intro b h; cases h; exact ⟨by decide, rfl⟩
+  gpos := by intro b h; cases h
   version := ex_version
   sideTags := ex_sideTags
   sideNodup := ex_sideNodup
   sideCount := ex_sideCount
   size := ex_size
 
-/-- the theorem applied to the example: a 1052-byte file that reads back as the normal form -/
+/-- the theorem applied to the example: a 1084-byte file that reads back as the normal form -/
 theorem C01_file_example : ∃ b, writeFile exEnvF exFileFont = .ok b ∧
-    readFile (fun _ _ => 0) b = .ok (nfFile exFileFont) :=
-  C01_file_roundtrip exEnvF (fun _ _ => 0) exFileFont C01_file_example_in_domain
+    readFile exLayoutDec (fun _ _ => 0) b = .ok (nfFile exFileFont) :=
+  C01_file_roundtrip exLayoutDec exEnvF (fun _ _ => 0) exFileFont C01_file_example_in_domain
 
 end SfntV.Props.C01
